@@ -243,6 +243,20 @@ def main(argv: list[str] | None = None) -> int:
                 if a.only and not re.search(a.only, ob["fn"]):
                     continue
                 obligations.append(ob)
+    # SymDB fidelity is checked, not assumed: differential validation against sqlite3 first
+    uses_symdb = any("SymDB" in " ".join(ob["meta"].get("stubs", [])) for ob in obligations)
+    validated_shapes: set[str] = set()
+    if uses_symdb:
+        r = subprocess.run([PY, "-m", "vf.validate_symdb"], capture_output=True, text=True, env=child_env(), cwd=ROOT, timeout=1200)
+        print(r.stdout.strip().splitlines()[-1] if r.stdout.strip() else "validate_symdb: no output")
+        if r.returncode != 0:
+            print(r.stdout[-3000:])
+            print("HARNESS-ERROR validate_symdb: SymDB disagrees with sqlite3 (or could not run):", r.stderr[-1500:])
+            return HARNESS_ERROR
+        try:
+            validated_shapes = set(json.load(open(os.path.join(ROOT, "vf", "symdb_shapes.json"))))
+        except Exception:
+            validated_shapes = set()
     # longest first
     obligations.sort(key=lambda o: -o["timeout"])
     results: list[dict] = []
@@ -258,6 +272,12 @@ def main(argv: list[str] | None = None) -> int:
     known_hits: dict[str, int] = {}
     unexhausted: list[str] = []
     for res in results:
+        unknown_shapes = [sh for sh in (res["stats"].get("extra", {}).get("shapes") or []) if sh not in validated_shapes]
+        if uses_symdb and unknown_shapes and res["verdict"] in ("confirmed", "not_exhausted"):
+            res["verdict"] = "harness_error"
+            res["detail"] = "SymDB does not cover statement shape(s) seen in this harness (not validated against sqlite3): " + "; ".join(unknown_shapes[:3])
+            harness_errors.append(res)
+            continue
         for k, n in (res["stats"].get("extra", {}).get("known_hits", {}) or {}).items():
             known_hits[k] = known_hits.get(k, 0) + n
         if res["verdict"] == "confirmed":
